@@ -215,9 +215,9 @@ Definition dangling (k : okind) (os : list object) : list gen_error :=
 Definition refs_candidates (d : device) : list gen_error :=
   let os := preorder_objects (d_objects d) in
   match dangling KBlock os with
-  | _ :: _ as l => l
+  | (_ :: _) as l => l
   | [] => match dangling KRegister os with
-          | _ :: _ as l => l
+          | (_ :: _) as l => l
           | [] => dangling KCommand os
           end
   end.
@@ -517,7 +517,7 @@ Definition c14_result (dev_name : string) (d : device) : string :=
     | Some w => "panic:reset_ref_" ++ w
     | None =>
       match refs_candidates d' with
-      | _ :: _ as l => "oneof:" ++ show_errors l
+      | (_ :: _) as l => "oneof:" ++ show_errors l
       | [] =>
         match device_name_check dev_name with
         | Some e => "error:" ++ show_error e
